@@ -1,7 +1,7 @@
 (* Properties/C07.v -- C07: null forcing leaves the texture unchanged; unsupported regimes are rejected *)
 From Coq Require Import Reals ZArith List.
 From Coquelicot Require Import Hierarchy Derive.
-From PV Require Import Num NumR Model_core Model_minerals Proofs_core Proofs_total Proofs_minerals Proofs_rhs Inst_core Proofs_flow.
+From PV Require Import Num NumR Model_core Model_minerals Proofs_core Proofs_total Proofs_minerals Proofs_rhs Inst_core Proofs_flow Proofs_path.
 From PV.gen Require Import Gen_core.
 Import ListNotations.
 Open Scope R_scope.
@@ -46,6 +46,28 @@ Proof. exact mat_mul9_zero. Qed.
 Theorem C07_zero_rate_component_constant : forall (f : R -> R) (a b : R),
   a <= b -> (forall t, a <= t <= b -> is_derive f t 0) -> f b = f a.
 Proof. exact zero_derivative_constant. Qed.
+
+(* capstones for the texture ODE itself (vector field = the modelled eval_rhs with velocity-gradient
+   history Lh and strain-rate scale sh): along any exact solution every orientation entry and every
+   volume fraction (state indices >= 9) is constant in the viscosity-bound regimes, and in every
+   regime while the strain-rate scale is zero *)
+Theorem C07_null_regime_texture_constant :
+  forall (regime ph fb : Z) (n : nat) (ass : list Z) (frs Sd : list R) (p nn lam M : R)
+         (Lh : R -> list R) (sh : R -> R) (y : nat -> R -> R) (a b : R),
+  (regime = 0 \/ regime = 7)%Z -> a <= b ->
+  (forall i t, a <= t <= b ->
+     is_derive (y i) t (f regime ph fb n ass frs Sd p nn lam M Lh sh t (fun j => y j t) i)) ->
+  forall i, (9 <= i)%nat -> y i b = y i a.
+Proof. exact null_regime_texture_constant. Qed.
+
+Theorem C07_zero_strain_rate_texture_constant :
+  forall (regime ph fb : Z) (n : nat) (ass : list Z) (frs Sd : list R) (p nn lam M : R)
+         (Lh : R -> list R) (sh : R -> R) (y : nat -> R -> R) (a b : R),
+  a <= b -> (forall t, a <= t <= b -> sh t = 0) ->
+  (forall i t, a <= t <= b ->
+     is_derive (y i) t (f regime ph fb n ass frs Sd p nn lam M Lh sh t (fun j => y j t) i)) ->
+  forall i, (9 <= i)%nat -> y i b = y i a.
+Proof. exact zero_strain_rate_texture_constant. Qed.
 
 (* zero boundary mobility: zero volume rates under any flow *)
 Theorem C07_zero_mobility : forall c phi fs es i, nth i (@frac_rates NumR c phi 0 fs es) 0 = 0.
